@@ -1317,7 +1317,9 @@ def _path(interp, args, kwargs, node):
 
 for _n in ("pickle.dump", "json.dump"):
     def _dump(interp, args, kwargs, node, _n=_n):
-        interp.log("persist.dump", node, how=_n, obj=args[0], fd=args[1] if len(args) > 1 else None, kwargs=dict(kwargs))
+        o_ = interp.deref(args[0]) if args and isinstance(args[0], Ref) else None
+        interp.log("persist.dump", node, how=_n, obj=args[0], fd=args[1] if len(args) > 1 else None, kwargs=dict(kwargs),
+                   attrs=dict(o_.attrs) if isinstance(o_, HObj) else None)
         may_raise(interp, node, "TypeError" if _n == "json.dump" else "PicklingError", (_n,))
         if _n == "pickle.dump":
             # pickling runs code of the members (__getstate__, __reduce__): it can fail with any exception
